@@ -405,7 +405,9 @@ func panelNewWorld(env *panelEnv, cfg panelCfg, nproc int) (*panelWorld, error) 
 	}
 	for _, o := range w.objs {
 		o.base = w.linkBytes(o)
+		o.units = [2]int64{}
 	}
+	w.inexact = false
 	w.procs = make([]*panelProc, nproc)
 	return w, nil
 }
